@@ -22,7 +22,9 @@ RULE = (
     "call).  Part 1 (kind sweep): for every must-support node kind / operator, expressions are drawn from the grammar "
     "until one contains that kind (depth 0-2); part 2: random expressions of depth <= 3 (quick) / <= 6 (thorough).  Each "
     "expression is run on 2 records of a 17-18 record pool (every field type, None values, empty lists, nested records, "
-    "heterogeneous shapes, one grouped record).  A case is non-trivial when the reference evaluator defines it (every "
+    "heterogeneous shapes, one grouped record).  Part 1c: field_equals / field_contains / field_regex on every field of "
+    "the 33-field main shape (all field types) with candidate strings equal to the text form of the field's value, a "
+    "case variant, a list element and a non-matching string.  A case is non-trivial when the reference evaluator defines it (every "
     "sub-expression evaluated eagerly without error) and it reads at least one field; distinct = distinct (expression, "
     "pool seed, record index).  Oracle: an independent AST walker giving every node its Python meaning "
     "(verif/refselector.py), itself cross-checked against builtin eval on every defined case without a typed matcher. "
@@ -87,6 +89,10 @@ MAY_REASONS = (
 # kinds whose sweep also runs on the grouped record of the pool
 GROUPED_KINDS = {"call:names", "call:name", "call:has_field", "call:field_contains", "call:field_equals", "call:field_regex",
                  "type:Eq", "type:NotEq", "type:contains", "type:as-fields"}
+
+
+# field types on which field_equals must have defined cases (their == accepts the text form / they are unhashable lists)
+HELPER_TYPES_REQUIRED = ("net.ipaddress", "net.ipnetwork", "uri", "path", "command", "varint", "string[]", "stringlist", "string")
 
 
 # ---- AST inspection ---------------------------------------------------------------------------------
@@ -321,6 +327,16 @@ def generate(ctx):
                 continue
             for ri in (rng.randrange(0, 6), rng.randrange(0, 8)):
                 yield {"k": "may-sweep", "kind": reason, "expr": expr, "tags": tags, "pool": pool_seeds[j % npools], "rec": ri}
+    # part 1c: helper functions over fields of every type, with candidate strings equal to the text form of the value
+    idx = 0
+    for ps in pool_seeds[:ctx.scale(2, 4)]:
+        pool = pool_for(ctx, ps)
+        for ri in range(0, 10):
+            for ftype, fname in selgen.MAIN_FIELDS:
+                for expr in helper_type_exprs(pool[ri], ftype, fname):
+                    if ctx.mine(idx):
+                        yield {"k": "helper-type", "kind": ftype, "expr": expr, "tags": [], "pool": ps, "rec": ri}
+                    idx += 1
     # part 2: random expressions, deeper
     n = ctx.scale(450, 14000)
     depths = [0, 1, 2, 2, 3, 3] if ctx.quick else [1, 2, 3, 3, 4, 4, 5, 6]
@@ -330,6 +346,38 @@ def generate(ctx):
         e, tags = selgen.gen_expr(rng, rng.choice(depths), support=support, avoid=(), with_tags=True)
         for ri in pick_records(rng):
             yield {"k": "random", "expr": e, "tags": tags, "pool": pool_seeds[i % npools], "rec": ri}
+
+
+def helper_type_exprs(rec, ftype, fname):
+    """field_equals / field_contains / field_regex on one field of any type; the candidate strings are the text form
+    of the field's value (which e.g. an address or a path accepts in ==), a case variant, an element for list-typed
+    fields, and a non-matching string.  Whether a case is defined and what it yields is the reference's business."""
+    import re
+
+    v = getattr(rec, fname)
+    cands = []
+    if isinstance(v, (list, tuple)):
+        cands += [str(x) for x in v[:1] if isinstance(x, (str, int))] + [str(v)]
+    elif v is not None:
+        cands += [str(v), str(v).upper()]
+    if ftype == "command":
+        cands += selgen.CMDS[:2]
+    if ftype in ("path", "path[]"):
+        cands += ["/a/b", "C:/TMP/hello", "c:\\tmp\\Hello"]
+    if ftype.startswith("net.ip") or ftype.startswith("net.IP"):
+        cands += ["10.0.0.1", "10.0.0.0/8"]
+    cands = [c for c in dict.fromkeys(cands) if len(c) < 80] or ["x"]
+    first, rest = cands[0], cands[1:]
+    out = [
+        "field_equals(r, [%r], [%r])" % (fname, first),
+        "field_equals(r, [%r], [%r], nocase=False)" % (fname, first),
+        "field_equals(r, ['zz', %r, 's'], %r)" % (fname, ["zz"] + rest[:2] + [first]),
+        "field_equals(r, [%r], ['zz', 'nope'])" % fname,
+        "field_contains(r, [%r], [%r])" % (fname, first),
+        "field_contains(r, [%r, 's'], [%r], nocase=False)" % (fname, first),
+        "field_regex(r, [%r], %r)" % (fname, re.escape(first)),
+    ]
+    return out
 
 
 def run_engine(cls, expr, rec):
@@ -382,6 +430,9 @@ def execute(ctx, case):
             return
 
     kinds = node_kinds(tree)
+    if case["k"] == "helper-type":
+        ctx.cell("helper-on-type", case["kind"], expr.split("(")[0])
+        ctx.event("defined:helper-on-type")
     if support == "must":
         for k in kinds:
             ctx.cell("kind", k)
@@ -422,6 +473,9 @@ def finish(ctx):
         ctx.require(have >= need, "must-support kind %s has only %d defined cases in shard %d (need %d)" % (k, have, ctx.shard, need))
     ctx.require(ctx.events.get("oracle_selfcheck_agree", 0) > 0, "the oracle self-check against builtin eval never ran")
     ctx.require(ctx.events.get("defined:may-reject", 0) > 0, "no defined may-reject case")
+    for t in HELPER_TYPES_REQUIRED:
+        ctx.require(ctx.cells.get("helper-on-type/%s/field_equals" % t, 0) > 0,
+                    "field_equals on a %s field has no defined case in shard %d" % (t, ctx.shard))
     for q in ("flow.record.selector:RecordContextMatcher._eval", "flow.record.selector:CompiledSelector.match",
               "flow.record.selector:TypeMatcherInstance._op"):
         ctx.require(ctx.reach.get(q, 0) > 0, "anchor %s was never entered" % q)
